@@ -34,7 +34,13 @@ Definition qz (a:bool) (x:list int) : Qc := Q2Qc (z_of_limbs a x # 1).
 Definition cq (a:bool) (x:list int) (b:bool) (y:list int) : CQ := (qz a x, qz b y).
 Open Scope uint63_scope."""
 TOL = 1e-9
-COND_MAX = 1e4
+# Float comparisons involving inv(Grr): relative tolerance max(TOL, C_COND * eps * cond(Grr)) per line, judged up to COND_MAX.
+# Calibration on the unchanged tree (4072 lines, nearly collinear references eps 1e-2..1e-5, cond 1e4..1e10, both estimators):
+# worst deviation 0.53 * eps * cond of max|S| (merged vs single-setup and vs mean/transmissibility), 0.79 * eps * cond of the
+# column difference itself -> C_COND = 30 leaves a 38x margin; the deviation stays proportional to cond up to 1e13.
+EPS = float(np.finfo(float).eps)
+C_COND = 30.0
+COND_MAX = 1e10
 MASK62 = (1 << 62) - 1
 
 
@@ -56,6 +62,9 @@ def build_datasets(case):
     """datasets (list of N_k x nch_k arrays) and ref_ind (positions of the references in each setup's channel list)."""
     if case["kind"] == "sim":
         rec = make_recording(case["seed"], case["N"], case["nch"])
+        if case.get("collinear"):  # side-by-side reference sensors: ref2 = ref1 + eps * local motion (reference block cond ~ 1/eps^2)
+            r0, r1 = case["chan"][0][case["ref_ind"][0][0]], case["chan"][0][case["ref_ind"][0][1]]
+            rec[:, r1] = rec[:, r0] + float(case["collinear"]) * rec[:, r1]
         datasets = [rec[:, ch].copy() for ch in case["chan"]]
     else:
         datasets = [make_recording(case["seed"] + 7919 * (k + 1), case["Ns"][k], len(ch)) for k, ch in enumerate(case["chan"])]
@@ -141,8 +150,12 @@ def np_merge(G):
     return np.vstack(blocks), mean
 
 
-def close(A, B, scale):
-    return A.shape == B.shape and bool(np.all(np.abs(A - B) <= TOL * scale + 1e-300))
+def close(A, B, scale, tol=TOL):
+    return A.shape == B.shape and bool(np.all(np.abs(A - B) <= tol * scale + 1e-300))
+
+
+def cond_tol(cond):
+    return np.maximum(TOL, C_COND * EPS * np.asarray(cond, float))
 
 
 # ----------------------------------------------------------------------------- one case
@@ -226,6 +239,8 @@ def run_case(ctx, case, pend, lines_cap):
         cond = np.maximum(cond, np.where(np.isfinite(c), c, np.inf))
     judged = cond <= COND_MAX
     ctx.not_judged += int(np.sum(~judged))
+    tolr = cond_tol(np.where(judged, cond, 1.0))  # per-line relative tolerance, scaled by the measured conditioning
+    ctx.hist("log10 cond(Grr) of judged lines", "<=4" if not np.any(judged) or cond[judged].max() <= 1e4 else "%d" % int(np.ceil(np.log10(cond[judged].max()))))
 
     # ---- property text, general part: reference block = mean, roving block = transmissibility . mean
     expect = np.zeros((rows, nr, nf), complex)
@@ -236,7 +251,7 @@ def run_case(ctx, case, pend, lines_cap):
     gscale = float(np.abs(expect).max()) or 1.0
     lscale = np.maximum(np.abs(expect).max(axis=(0, 1)), 1e-6 * gscale)
     for k in range(nf):
-        if judged[k] and not close(Sy[:, :, k], expect[:, :, k], lscale[k]):
+        if judged[k] and not close(Sy[:, :, k], expect[:, :, k], lscale[k], tolr[k]):
             blk = "reference block" if not close(Sy[:nr, :, k], expect[:nr, :, k], lscale[k]) else "roving blocks"
             ctx.fail("oracle", "SD_PreGER %s differ from mean / transmissibility.mean of the per-setup spectra at line %d (%s): max dev %.3g of scale %.3g"
                      % (blk, k, tag, np.abs(Sy[:, :, k] - expect[:, :, k]).max(), lscale[k]), case, key="C04:SD_PreGER:general-%s" % blk.split()[0])
@@ -255,7 +270,7 @@ def run_case(ctx, case, pend, lines_cap):
                          key="C04:SD_PreGER:single-setup-grid")
                 break
             sc = np.maximum(np.abs(S1).max(axis=(0, 1)), 1e-6 * float(np.abs(S1).max()))
-            bad = [k for k in range(nf) if judged[k] and not close(Sy[:, :, k], S1[:, :, k], sc[k])]
+            bad = [k for k in range(nf) if judged[k] and not close(Sy[:, :, k], S1[:, :, k], sc[k], tolr[k])]
             if bad:
                 k = bad[0]
                 dev = np.abs(Sy[:, :, k] - S1[:, :, k])
@@ -264,6 +279,22 @@ def run_case(ctx, case, pend, lines_cap):
                          "order) against the references, %d of %d lines, first line %d row %d: dev %.3g of scale %.3g (%s)"
                          % (which, len(bad), nf, k, r, dev.max(), sc[k], tag), case,
                          key="C04:SD_PreGER:single-setup" if which == "SD_est" else "C04:SD_est:reference-estimator")
+            if nr >= 2:
+                # sharper derived observable: the difference of the first two reference columns of the roving blocks (for side-by-side
+                # references it is eps times smaller than the entries, and it is what a rank-truncated inverse loses); its float error
+                # is proportional to ITSELF (calibration above), so it is judged relative to its own scale
+                D, D1 = Sy[nr:, 1, :] - Sy[nr:, 0, :], S1[nr:, 1, :] - S1[nr:, 0, :]
+                dsc = np.abs(D1).max(axis=0)
+                dev = np.abs(D - D1).max(axis=0)
+                badd = [k for k in range(nf) if judged[k] and dev[k] > tolr[k] * dsc[k] + 16 * EPS * sc[k]]
+                if badd:
+                    k = badd[0]
+                    ctx.fail("oracle", "simultaneous recording: the difference of the two reference columns of the roving blocks differs from that of the "
+                             "single-setup matrix (%s), %d of %d lines, first line %d: deviation %.3g of its scale %.3g (%.3g relative; tolerance %.3g at "
+                             "cond %.3g) (%s)" % (which, len(badd), nf, k, dev[k], dsc[k], dev[k] / max(dsc[k], 1e-300), tolr[k], cond[k], tag), case,
+                             key="C04:SD_PreGER:single-setup-coldiff" if which == "SD_est" else "C04:SD_est:reference-estimator-coldiff")
+                    break
+            if bad:
                 break
 
     # ---- property text, last sentence: a per-setup gain changes nothing but the mean reference block
@@ -309,7 +340,7 @@ def run_case(ctx, case, pend, lines_cap):
         cand = [cand[0]] + sel + [cand[-1]]
     for j, k in enumerate(cand):
         G = [(S[:nr, :, k], S[nr:, :, k]) for S in G_all]
-        e, full, kk = line_expr(j == len(cand) // 2, nr, G, Sy[:, :, k], k, TOL * lscale[k])
+        e, full, kk = line_expr(j == len(cand) // 2, nr, G, Sy[:, :, k], k, tolr[k] * lscale[k])
         pend.exprs.append(e)
         pend.meta.append(dict(case=case, tag=tag, line=k, malformed=False, full=full, k2=kk, S=Sy[:, :, k], nr=nr))
     ctx.extra["lines_compared_in_coq"] = ctx.extra.get("lines_compared_in_coq", 0) + len(cand)
@@ -476,9 +507,10 @@ def class_level(ctx, case):
             if Ss1.shape[0] == Sr.shape[0] and Ss1.shape[2] == Sr.shape[2]:
                 S1c = Ss1[:, :nr, :]
                 scc = np.maximum(np.abs(S1c).max(axis=(0, 1)), 1e-6 * float(np.abs(S1c).max()))
-                okc = np.linalg.cond(np.moveaxis(S1c[:nr, :, :], 2, 0)) <= COND_MAX
+                cc = np.linalg.cond(np.moveaxis(S1c[:nr, :, :], 2, 0))
+                okc = cc <= COND_MAX
                 devc = np.abs(Sr - S1c).max(axis=(0, 1))
-                if np.any(devc[okc] > TOL * scc[okc]):
+                if np.any(devc[okc] > cond_tol(cc[okc]) * scc[okc]):
                     ctx.fail("oracle", "%s: result.Sy differs from the reference columns of result.Sy of %s on the same simultaneous recording "
                              "(max dev %.3g of scale %.3g)" % (tag, type(single[cls.__name__]).__name__, devc[okc].max(), scc.max()), c,
                              key="C04:%s:single-setup-class" % cls.__name__)
@@ -489,7 +521,7 @@ def class_level(ctx, case):
         cond = np.linalg.cond(np.moveaxis(S1[:S1.shape[1], :, :], 2, 0))
         ok = cond <= COND_MAX
         dev = np.abs(Sr - S1).max(axis=(0, 1))
-        if np.any(dev[ok] > TOL * sc[ok]):
+        if np.any(dev[ok] > cond_tol(cond[ok]) * sc[ok]):
             ctx.fail("oracle", "%s through MultiSetup_PreGER.run_all: result.Sy is not the single-setup cross-spectral matrix of the simultaneous "
                      "recording for the class's run parameters (max dev %.3g of scale %.3g)" % (tag, dev[ok].max(), sc.max()), c,
                      key="C04:%s:single-setup" % cls.__name__)
@@ -510,7 +542,8 @@ def run(ctx):
         "(checked through the gain oracle); witness spectra = the harness's own fdd.SD_est(.., pov=pov) per setup, exact rational images",
         "comparison inside Coq, exact: |num - den*S| in the 1-norm against |den|_1 * tol/sqrt2 (pass => within tol=1e-9*scale, fail => farther than tol/2); "
         "spectra of a line are multiplied by a power of two to integers (C04_homogeneous)",
-        "lines where a reference block has condition number > 1e4 are not judged (floating-point inverse); counted under not_judged",
+        "float comparisons through inv(Grr) use the relative tolerance max(1e-9, 30*eps*cond(Grr)) per line (calibrated: unchanged tree <= 0.8*eps*cond "
+        "over 4072 nearly-collinear lines); lines with cond > 1e10 are not judged; counted under not_judged",
     ]
     pend = Pending()
     tm = ctx.extra.setdefault("timing_s", {})
@@ -561,6 +594,16 @@ def run(ctx):
         ctx.hist("nxseg parity", "odd" if nxseg % 2 else "even, not a power of two")
         run_case(ctx, gen_case(ctx, "sim", method, nxseg, pov), pend, 7)
         run_case(ctx, gen_case(ctx, "gen", method, nxseg, pov), pend, 5)
+    # nearly collinear (side-by-side) reference sensors: ref2 = ref1 + eps * local motion, reference block cond ~ 1/eps^2 but invertible;
+    # all setups share the reference records, so the merged matrix must still be the single-setup one (a truncated pseudo-inverse is not)
+    cl = [(1e-2, "per", 32), (1e-3, "cor", 33), (1e-4, "per", 64), (1e-4, "cor", 32), (3e-5, "per", 33), (3e-4, "per", 16), (1e-5, "cor", 64), (1e-4, "per", 24)]
+    if not quick:
+        cl += [(e, m, n) for e in (1e-2, 1e-3, 3e-4, 1e-4, 3e-5, 1e-5) for m in ("per", "cor") for n in (65, 128, 375)]
+    for j, (epsc, method, nxseg) in enumerate(cl):
+        case = gen_case(ctx, "sim", method, nxseg, povs[j % 4], dict(nr=2 + (j % 3 == 2), nch=ctx.rng.randint(5, 9)))
+        case["collinear"] = epsc
+        ctx.hist("collinear references eps", epsc)
+        run_case(ctx, case, pend, 7 if quick else 12)
     # malformed stream (~15 %): dead or duplicated reference channel -> exactly singular reference block
     nmal = max(4, int(0.15 * ctx.evaluations))
     for j in range(nmal):
@@ -594,6 +637,8 @@ def run(ctx):
         case["N"] = max(N, 8 * max(p[0] for p in ps))
         case["params"] = ps
         case["level"] = "class"
+        if j % 3 == 1:
+            case["collinear"] = [1e-3, 1e-4, 3e-5][(j // 3) % 3]
         class_level(ctx, case)
     tm["class level"] = round(time.time() - t0, 2)
 
